@@ -754,6 +754,17 @@ def replay(rep):
         a, b = snapshot(g, three), snapshot(f, three)
         for k in diff_snap(a, b):
             print("differs:", k, "\n  rescaled:", a[k], "\n  fresh:   ", b[k])
+    elif kind == "value":
+        c = rep["case"]
+        g = mk_g3([Fraction(x) for x in c["params"]]) if c.get("three") else \
+            mk_g1(Fraction(c["L"]), Fraction(c["T"]))
+        x = float(Fraction(rep["x"]))
+        a = [np.array(0.0)] * 3
+        a[int(rep["fn"][-1]) - 1] = np.array(x)
+        f = {"dec": g.decompactify, "jac": g.compactificationDerivatives,
+             "com": g.compactify}[rep["fn"][:3]]
+        print("%s(%r) component %s = %r" % (f.__name__, x, rep["fn"][-1],
+                                             f(*a)[int(rep["fn"][-1]) - 1]))
     elif kind == "maps":
         c = rep["case"]
         if rep.get("three"):
